@@ -254,6 +254,47 @@ func propC17(g *G, n int) {
 			lo, hi := encodeDec(g.chance(0.3), g.coef(), g.pick(12288))
 			x = dec{lo, hi}
 		}
+		if h, ok := g.hint(); ok {
+			// hunt: arguments whose root (or whose cube, or twice / half / a fifth of the root - the sums and halves the
+			// iterations form) has the hinted word on top of the 192-bit working register: A = R^k cut to 34 digits
+			h += uint64(g.pick(3)) - 1
+			R := new(big.Int).Lsh(new(big.Int).SetUint64(h), 128)
+			switch g.pick(3) {
+			case 0:
+				R.Add(R, new(big.Int).Sub(new(big.Int).Lsh(big.NewInt(1), 128), big.NewInt(1)))
+			case 1:
+				R.Add(R, new(big.Int).Rand(g.r, new(big.Int).Lsh(big.NewInt(1), 128)))
+			}
+			switch g.pick(5) {
+			case 0:
+				R.Rsh(R, 1)
+			case 1:
+				R.Quo(R, big.NewInt(5))
+			case 2:
+				R.Lsh(R, 1)
+			case 3:
+				R.Mul(R, big.NewInt(5))
+			}
+			k := 1 + g.pick(3)
+			A := new(big.Int).Exp(R, big.NewInt(int64(k)), nil)
+			drop := len(A.String()) - 34
+			if drop > 0 {
+				A.Quo(A, pow10(drop))
+			} else {
+				drop = 0
+			}
+			if g.chance(0.3) {
+				A.Add(A, big.NewInt(int64(g.pick(3)-1)))
+			}
+			if A.Sign() > 0 && A.Cmp(cmax) <= 0 {
+				kk := k
+				if kk == 1 {
+					kk = 2 + g.pick(2)
+				}
+				lo, hi := encodeDec(false, A, clampExp(6176+drop+kk*(g.pick(2001)-1000)))
+				x = dec{lo, hi}
+			}
+		}
 		drm := g.drm()
 		emit(drm, "Sqrt", []string{x.String()})
 		emit(drm, "Cbrt", []string{x.String()})
